@@ -101,6 +101,41 @@ CLAIMED = {
             "maximal length, complete, <= 20 bits) and the lengths assign_codes() produces for frequency vectors of every "
             "alphabet size, incl. vectors that force the 20-bit limit.",
             "Sampled inputs; per-table counts from the inspector's own decoding.", "DESIGN.md 3 (C20)"),
+    "C16": ("fault_enumeration", "TLC model of the per-operand system-call sequence with one fault (Crash.tla) + every model behaviour replayed at every concrete call position of the real binary (LD_PRELOAD injection)",
+            "Crash.tla: for -k and not -k, every step x {call failure, SIGINT, SIGTERM, SIGKILL} is explored; TLC checks the "
+            "A/B dichotomy, that status 0/4 implies a complete output, and that SIGKILL never leaves the input gone without a "
+            "complete output.  Every model behaviour is replayed at every open/read/write/fchown/fchmod/futimens/close/unlink "
+            "call position of compress / decompress runs of the real binary; files, exit status / signal and diagnostic must "
+            "be one of the outcomes the model allows for that injection.",
+            "Exhaustive over the call positions of the four scenario runs (2 modes x -k); faults are injected at the libc "
+            "boundary; -f is not modelled here (C17).", "DESIGN.md 3 (C16)"),
+    "C17": ("model_checking", "TLC enumeration of operand scenarios with the documented outcome (FileOps.tla) replayed against the real binary in scratch directories",
+            "FileOps.tla gives, for every combination of mode, options {k,c,t,f}, operand kind (regular, hard link, symlink, "
+            "directory, fifo, missing), suffix, pre-existing output and permission class, the outcome: skipped with warning, "
+            "output name, metadata, removal of the input, exit status; TLC checks NeverClobbers / SkipsNonRegular on the "
+            "model and every scenario is built on disk and run through the real binary; names, contents, mode bits, "
+            "nanosecond timestamps, link counts and status are compared.",
+            "Exhaustive over the scenario constants of tools/checks/c17.py.  Ownership transfer (fchown) needs root "
+            "and is exercised only for the same owner.", "DESIGN.md 3 (C17)"),
+    "C18": ("model_checking", "TLC enumeration of operand lists (FileOps.tla: effect of a list = fold of single-operand effects, status = max) replayed against the real binary",
+            "Operand lists mixing processed, skipped, hard-linked, missing and corrupt operands in every order, per mode and "
+            "option set: the real run must show per operand exactly the single-operand effect, stop at the first fatal "
+            "operand, and exit with 0 / 4 / 1 as the fold says; hooked multi-operand runs are validated as a sequence of "
+            "Start..Uninit segments without resetting what init() does not reset.",
+            "Exhaustive over the list constants of tools/checks/c18.py.", "DESIGN.md 3 (C18)"),
+    "C19": ("model_checking", "TLC model checking of the copy pipeline (MCCopy) + TLC trace validation of hooked -cdf runs + byte identity",
+            "MCCopy: reader, copy task and writer for all interleavings: output = input, slots conserved, termination.  "
+            "Real -cdf runs on non-bzip2 inputs (empty, 1-4 bytes, magic-prefix look-alikes, multi-megabyte) under "
+            "perturbed schedules, short reads/writes and tiny buffers: output bytes identical, exit 0, traces validated "
+            "against TraceCopy.",
+            NOTE_MC, "DESIGN.md 3 (C19)"),
+    "C22": ("model_checking", "TLC enumeration of command lines with the documented interpretation (Cli.tla) replayed against the real binary",
+            "Cli.tla is an executable model of the documented rules (invocation names, -d/-z last wins, -c/-t conflict, "
+            "clustered options, -n N / -nN, --, ignored compatibility options, LBZIP2/BZIP2/BZIP tokens before the command "
+            "line).  TLC enumerates token sequences x invocation names x env placement and prints the expected observable "
+            "behaviour; each is run through the real binary (symlink of that name) and compared: what happened to the "
+            "operand, where output went, level digit, exit status.",
+            "Exhaustive over the token sets of tools/checks/c22.py.", "DESIGN.md 3 (C22)"),
 }
 
 NOT_YET = "check not built yet in this round; planned in DESIGN.md section 3"
